@@ -82,7 +82,17 @@ fn main() {
         same("Vec: capacity must not matter", &v1, &v2, &format!("{keys:?}"));
         same("Vec vs slice vs Box<[T]> vs Arc<[T]>", &v1, &keys[..], &format!("{keys:?}"));
         same("Vec vs Arc<[T]>", &v1, &Arc::<[u32]>::from(keys.clone()), &format!("{keys:?}"));
-        same("VecDeque (wrapped ring buffer) vs Vec", &{ let mut d: VecDeque<u32> = VecDeque::with_capacity(8); for k in &keys { d.push_back(*k); if d.len() > 3 && round % 2 == 0 { let f = d.pop_front().unwrap(); d.push_back(f); let l = d.pop_back().unwrap(); d.push_front(l); } } d.iter().cloned().collect::<VecDeque<u32>>() }, &{ let d: VecDeque<u32> = keys.iter().cloned().collect(); let _ = d; keys.iter().cloned().collect::<VecDeque<u32>>() }, "same elements");
+        {
+            // a deque whose live region is physically split (wrapped ring buffer) must hash like the same elements in a Vec
+            let mut d: VecDeque<u32> = VecDeque::with_capacity(8);
+            for k in &keys { d.push_back(*k); }
+            for _ in 0..(round % 5) { if let Some(f) = d.pop_front() { d.push_back(f); } }
+            for _ in 0..(round % 3) { if let Some(l) = d.pop_back() { d.push_front(l); } }
+            let lin: Vec<u32> = d.iter().cloned().collect();
+            same("VecDeque: physical layout of the ring buffer must not matter", &d, &lin, &format!("{lin:?} (as_slices = {:?})", d.as_slices()));
+            let d2: VecDeque<u32> = lin.iter().cloned().collect();
+            same("VecDeque: two deques with equal content", &d, &d2, &format!("{lin:?}"));
+        }
         let st = format!("s{round}");
         same("String vs &str vs Box<str> vs Arc<str>", &st, st.as_str(), &st);
         same("String vs Arc<str>", &st, &Arc::<str>::from(st.as_str()), &st);
